@@ -2,6 +2,8 @@ import HdVerif.Proofs.SegRead
 import HdVerif.Generated.T8j
 import HdVerif.Generated.T8k
 import HdVerif.Generated.T8m
+import HdVerif.Generated.T8n
+import HdVerif.Proofs.Effects
 /-! C02: the hand-written loops and tables of `Model/SegRead.lean` use exactly the expressions the current source
 contains (regenerated as `Generated/T8j.lean`, `T8k.lean`, `T8m.lean` on every run).
 
@@ -132,6 +134,30 @@ theorem forwarding_covers_entry_points :
       "get_pixels_by_dimension_index_values", "get_total_pixel_matrix"].all fun e =>
         ["frames:relabel", "frames:combine_segments", "remap:relabel", "channel:segment_numbers"].all fun k =>
           forwarding.any fun r => r.1 == e && r.2.1 == k) = true := by decide +kernel
+
+/-- the documented default of every read option (the docstrings of the five entry points say the same) -/
+def documentedDefaults : List (String × String) :=
+  [("segment_numbers", "None"), ("combine_segments", "False"), ("relabel", "False"), ("rescale_fractional", "True"),
+   ("skip_overlap_checks", "False"), ("dtype", "None"), ("assert_missing_frames_are_empty", "False")]
+
+/-- **an option left out means the same at every entry point**: every default in the five signatures is the documented
+one (so the model's request, which always carries a value, is the call with the omitted options filled in) -/
+theorem option_defaults_agree :
+    optionDefaults.all (fun r => documentedDefaults.lookup r.2.1 == some r.2.2) = true ∧
+    (["get_pixels_by_source_instance", "get_pixels_by_source_frame", "get_volume",
+      "get_pixels_by_dimension_index_values", "get_total_pixel_matrix"].all fun e =>
+        ["segment_numbers", "combine_segments", "relabel", "rescale_fractional", "skip_overlap_checks", "dtype"].all fun k =>
+          optionDefaults.any fun r => r.1 == e && r.2.1 == k) = true := by
+  constructor <;> decide +kernel
+
+/-- **the list-valued accessors hand out new values**: by the alias analysis of `Model/Effects.lean` over the regenerated
+tables of `segment_numbers`, `number_of_segments`, `get_segment_numbers`, `get_tracking_ids`,
+`segmented_property_categories/types` (T8n), no returned value can refer to state kept on the object, and no statement
+of these accessors writes to the object — a caller editing a returned list cannot change what the object reports -/
+theorem accessors_return_new_values :
+    Effects.pureProg [0] accessorEffects = true ∧
+    (accessorResults.all fun n => !(Effects.mayAlias [0] accessorEffects).contains n) = true := by
+  constructor <;> decide +kernel
 
 /-! ### after the frames are read (T8m) -/
 
